@@ -76,14 +76,17 @@ SpNotScalarOK(op, a, b) ==
         ELSE
             /\ (sp1(A, a) => (B.t = "num" \/ (B.m.nr = 1 /\ B.m.nc = 1)))
             /\ (sp1(B, b) => (A.t = "num" \/ (A.m.nr = 1 /\ A.m.nc = 1)))
-SBinOp(op, a, b) == IF SpNotScalarOK(op, a, b) THEN BinOp(op, Operand(a), Operand(b)) ELSE Err("TypeOrValue")
+\* A / c for a sparse A: "dividing all its entries by c", the result is sparse; only division by a number is specified here
+SBinOp(op, a, b) == IF op = "/" /\ OpKind(a) = "sparse" /\ b.t # "num" THEN [k |-> "unspec"]
+                    ELSE IF SpNotScalarOK(op, a, b) THEN BinOp(op, Operand(a), Operand(b)) ELSE Err("TypeOrValue")
 \* indexed assignment with a 1 by 1 sparse right-hand side: only to a single cell
 SRhsOK(rhs, n) == rhs.t # "name" \/ kind[env[rhs.n]] # "sparse" \/ Size(heap[env[rhs.n]]) # 1 \/ n = 1
 \* CALIBRATED: a sparse right-hand side is a matrix; a single integer position A[k] / A[i,j] takes a scalar only
 SRhsScalarPosOK(rhs, scalarpos, src) == ~scalarpos \/ rhs.t # "name" \/ kind[env[rhs.n]] # "sparse" \/ kind[env[src]] # "sparse"
 \* documented result kinds of  A (+|-|*) B
 BinKind(op, a, b) ==
-    IF OpKind(a) = "sparse" /\ OpKind(b) = "sparse" THEN "sparse"
+    IF op = "/" THEN (IF OpKind(a) = "num" THEN "dense" ELSE OpKind(a))        \* "dense if A is dense, and sparse if A is sparse"
+    ELSE IF OpKind(a) = "sparse" /\ OpKind(b) = "sparse" THEN "sparse"
     ELSE IF op = "*" /\ ((OpKind(a) = "sparse" /\ (OpKind(b) = "num" \/ (b.t = "name" /\ Size(heap[env[b.n]]) = 1 /\ heap[env[a.n]].nc # 1)))
                          \/ (OpKind(b) = "sparse" /\ (OpKind(a) = "num" \/ (a.t = "name" /\ Size(heap[env[a.n]]) = 1 /\ heap[env[b.n]].nr # 1))))
          THEN "sparse"                   \* scalar multiplication keeps the storage of the matrix
@@ -106,6 +109,8 @@ SDo(op) ==
                                  THEN /\ UNCHANGED <<heap, env, nextid, kind>> /\ out' = Err("TypeOrValue")
                                  ELSE SMutate(Set2(heap[env[op.src]], op.ix, op.jx, Rhs(op.rhs)), op.src)
          [] op.k = "binop"    -> SProduce(SBinOp(op.o, op.a, op.b), op.dst, BinKind(op.o, op.a, op.b))
+         [] op.k = "ibinop" /\ op.o = "/" /\ kind[env[op.src]] = "sparse" /\ op.b.t # "num" ->
+                                 /\ UNCHANGED <<heap, env, nextid, kind>> /\ out' = [k |-> "unspec"]
          [] op.k = "ibinop"   -> \* in place only if neither the typecode nor the storage kind would change
                                  \* (A *= c with a number or a 1 by 1 dense matrix c is always the scalar product: the kind is kept)
                                  IF ~(op.o = "*" /\ (op.b.t = "num" \/ (kind[env[op.b.n]] = "dense" /\ Size(heap[env[op.b.n]]) = 1)))
@@ -116,6 +121,7 @@ SDo(op) ==
                                  THEN /\ UNCHANGED <<heap, env, nextid, kind>> /\ out' = Err("TypeOrValue")
                                  ELSE SMutate(IBinOp(op.o, heap[env[op.src]], Operand(op.b)), op.src)
          [] op.k = "unary"    -> SProduce([k |-> "mat", m |-> Unary(op.u, heap[env[op.src]])], op.dst, kind[env[op.src]])
+         [] op.k = "abs"      -> SProduce(AbsM(heap[env[op.src]]), op.dst, kind[env[op.src]])
          [] op.k = "alias"    -> /\ env' = [env EXCEPT ![op.dst] = env[op.src]] /\ UNCHANGED <<heap, nextid, kind>> /\ out' = NoOut
 
 \* design-level invariants
